@@ -12,6 +12,19 @@ TRUST = ("Trusted: govc itself (go/ssa semantics, memory model, contract parser)
          "slice/string/map lengths < 2^48, sequential semantics. Integers are mathematical with Go wrap-around written out.")
 
 CLAIMED = {
+ "C09": dict(
+   text=("Deductive proof on the real functions: the typedef dictionary (find reads exactly the entry of (node, name); add files one entry and changes no "
+         "other, every node keeps its own table); findExternal returns a top-level typedef of exactly the module that the referencing module imports under "
+         "the prefix (or one of the submodules that module includes), never another; the binding step of Type.resolve, as assertions at the call that "
+         "resolves the typedef found: a built-in name denotes the built-in, an unprefixed or own-prefixed name the typedef of the nearest enclosing scope "
+         "(loop invariant over the AST parent walk), only then a submodule the module includes, a foreign prefix the imported module; Typedef.resolve: the "
+         "resolved type is a fresh copy of its base's, named after the typedef, own units and default win, everything else inherited, an already resolved "
+         "typedef is left alone. Type.resolve is partially specified (`only`): its restriction code is not under contract, the proved clauses assume the "
+         "unclaimed callee preconditions listed in the evidence. Bounded (labelled): random schemas with typedefs at every scope kind, shadowing, chains and "
+         "imports against the generator's own resolver (kind, units, default, accumulated patterns, range, enum/bit names, fraction digits, union members), "
+         "cyclic/unknown references must be errors, two runs must agree; fixed aliasing and union cases. Assumed: loading a module keeps existing typedefs "
+         "and types; YangType.Equal reads only."),
+   ref="8 (C09)"),
  "C16": dict(
    text=("Deductive proof on the real cursor functions: (*lexer).next advances the position by the width of the decoded character (assumed contract of "
          "utf8.DecodeRuneInString), adds one line and resets both columns on a line feed, counts every other character -- a tab or a multi-byte character "
@@ -133,7 +146,6 @@ NOT_REACHED = {
  "C06": "not reached: dup/merge freshness, re-parenting and no-aliasing frames are proved (counted under C04), but the uses arm of ToEntry (reflection loop) that carries the property has no discharged contract. DESIGN.md section 13.",
  "C07": "not reached: merge's collision and stamping clauses are proved (C04/C12); Entry.Augment and the retry loop of Process have no discharged contract on the current tree. DESIGN.md section 13.",
  "C08": "not reached: ApplyDeviate (215 implicit checks, many unknown calls) has no discharged contract; a known defect (deviate kinds kept in a map, written order lost) is described in DESIGN.md section 5. DESIGN.md section 13.",
- "C09": "not reached: Type.resolve / Typedef.resolve (245 implicit checks, reflection-free but with seven unknown calls) have no discharged contract; two known defects (pattern append aliasing, YangType.Equal ignores Bit) are described in DESIGN.md section 5. DESIGN.md section 13.",
  "C18": "not reached: the single-call 'failure leaves no trace' frames live on Type.resolve and Modules.Parse, which have no discharged contract; batch-vs-incremental equality is relational and outside this family. A known defect (YangType stored before a failing restriction is reported) is described in DESIGN.md section 5.",
 }
 
